@@ -33,7 +33,7 @@ def spec(tier, cap_k=2, names=None):
     return kprop.KSpec(
         package="sophia_inmem", crate_dir="inmem",
         harness_files={"inmem": [os.path.join(H, "vt.rs"), os.path.join(H, "c01_store.rs")]},
-        harnesses=hs, ordset=True, ordset_cap=cap_k, jobs=6 if tier == "quick" else 3,
+        harnesses=hs, ordset=True, ordset_cap=cap_k, jobs=6 if tier == "quick" else 2,
         encoded=["sophia_inmem::dataset::{GenericFastDataset,GenericLightDataset}::{insert,remove,quads_matching} (16-way / nested index selection, range bounds, permutation closures)",
                  "sophia_inmem::graph::{GenericFastGraph,GenericLightGraph}::{insert,remove,triples_matching}",
                  "sophia_inmem::{dataset,graph}::_iter::* (matching iterators with cached match flags)",
